@@ -289,18 +289,25 @@ theorem diffDepthWith_total (rs : Nat) (hrs : 1 ≤ rs) (sw : Bool) (d : Nat) :
           cases a <;> cases b <;> simp_all [Val.elems?]
       | none =>
         simp only []
-        cases a <;> simp [Val.elems?] at hea
-        rename_i okv
-        cases b <;> try exact ⟨_, rfl⟩
-        rename_i nkv
-        simp only []
-        obtain ⟨es, hes⟩ := mappingEdits_first_total (diffDepthWith rs sw d) nkv okv (fun e he nv hl => by
-          obtain ⟨k', hk'⟩ := lookup_mem hl
-          have h1 := mem_heightPairs (k := e.1) (v := e.2) (by simpa using he)
-          have h2 := mem_heightPairs hk'
-          simp only [Val.height] at hha hhb
-          exact IH e.2 nv (by omega) (by omega))
-        simp only [mappingEdits, hes, bind, Except.bind, pure, Except.pure]
-        exact ⟨_, rfl⟩
+        cases a with
+        | str _ => simp [Val.elems?] at hea
+        | bytes _ => simp [Val.elems?] at hea
+        | tuple _ => simp [Val.elems?] at hea
+        | list _ => simp [Val.elems?] at hea
+        | none => exact ⟨_, rfl⟩
+        | bool _ => exact ⟨_, rfl⟩
+        | int _ => exact ⟨_, rfl⟩
+        | dict okv =>
+          cases b <;> try exact ⟨_, rfl⟩
+          rename_i nkv
+          simp only []
+          obtain ⟨es, hes⟩ := mappingEdits_first_total (diffDepthWith rs sw d) nkv okv (fun e he nv hl => by
+            obtain ⟨k', hk'⟩ := lookup_mem hl
+            have h1 := mem_heightPairs (k := e.1) (v := e.2) (by simpa using he)
+            have h2 := mem_heightPairs hk'
+            simp only [Val.height] at hha hhb
+            exact IH e.2 nv (by omega) (by omega))
+          simp only [mappingEdits, hes, bind, Except.bind, pure, Except.pure]
+          exact ⟨_, rfl⟩
 
 end Dawn.Diff
